@@ -438,14 +438,14 @@ Proof.
     destruct (Hstep ss' Pd HP) as (Htot & Hfit & Hsrv); rewrite Hfit;
     cbn [fits16 N.ltb N.compare Pos.compare Pos.compare_cont andb].
   - destruct ss'; [|cbn [length] in Hlen; lia]. rewrite Hsrv.
-    cbn [deliver]. unfold wait, set_q, mkc. cbn [c_q c_mtu c_cmtu c_locked app wait_in acc_group is_err].
+    cbn [deliver]. unfold wait, set_q, mkc. cbn [c_q c_mtu c_cmtu c_locked app wait_in is_cmd_err acc_group is_err].
     cbn [N.eqb E_ATTR_NOT_FOUND Pos.eqb shape0_svcs]. now rewrite app_nil_r.
   - destruct ss' as [|x r].
     + rewrite Hsrv.
-      cbn [deliver]. unfold wait, set_q, mkc. cbn [c_q c_mtu c_cmtu c_locked app wait_in acc_group is_err].
+      cbn [deliver]. unfold wait, set_q, mkc. cbn [c_q c_mtu c_cmtu c_locked app wait_in is_cmd_err acc_group is_err].
       cbn [N.eqb E_ATTR_NOT_FOUND Pos.eqb shape0_svcs]. now rewrite app_nil_r.
     + destruct Hsrv as (k & Hk & Hsrv). rewrite Hsrv.
-      cbn [deliver]. unfold wait, set_q, mkc. cbn [c_q c_mtu c_cmtu c_locked app wait_in acc_group is_err].
+      cbn [deliver]. unfold wait, set_q, mkc. cbn [c_q c_mtu c_cmtu c_locked app wait_in is_cmd_err acc_group is_err].
       pose proof (profile_size_firstn_le k (x :: r)) as Hfl.
       rewrite group_items_spec by lia.
       destruct k as [|k]; [lia|]. cbn [firstn].
@@ -655,7 +655,7 @@ Proof.
     pose proof (srv_type_spec s a sv cd [] st Hc Hm Hb Hcs ltac:(constructor) Ha Hst E Hsth Hbel) as Hsrv.
     cbv zeta in Hsrv. fold e in Hsrv.
     unfold xfer. cbn [encodable]. rewrite !fits16_N by (subst e; lia). cbn [andb]. rewrite Hsrv.
-    cbn [deliver]. unfold wait, set_q, mkc. cbn [c_q c_mtu c_cmtu c_locked app wait_in acc_type is_err].
+    cbn [deliver]. unfold wait, set_q, mkc. cbn [c_q c_mtu c_cmtu c_locked app wait_in is_cmd_err acc_type is_err].
     reflexivity.
   - assert (Hwf' : Forall wf_chr cs') by (rewrite Hcs in Hwf; apply Forall_app in Hwf; tauto).
     destruct (N.ltb e st) eqn:E.
@@ -669,10 +669,10 @@ Proof.
       unfold xfer. cbn [encodable]. rewrite !fits16_N by (subst e; lia). cbn [andb].
       destruct cs' as [|x r].
       * rewrite Hsrv. cbn [deliver]. unfold wait, set_q, mkc.
-        cbn [c_q c_mtu c_cmtu c_locked app wait_in acc_type is_err shape0_chrs].
+        cbn [c_q c_mtu c_cmtu c_locked app wait_in is_cmd_err acc_type is_err shape0_chrs].
         now rewrite app_nil_r.
       * destruct Hsrv as (k & Hk & Hsrv). rewrite Hsrv.
-        cbn [deliver]. unfold wait, set_q, mkc. cbn [c_q c_mtu c_cmtu c_locked app wait_in acc_type is_err].
+        cbn [deliver]. unfold wait, set_q, mkc. cbn [c_q c_mtu c_cmtu c_locked app wait_in is_cmd_err acc_type is_err].
         rewrite type_items_spec.
         change {| c_mtu := mtu; c_cmtu := cm; c_q := []; c_locked := false |} with (mkc mtu cm [] false).
         set (h' := a + 1 + chrs_size cd) in *.
@@ -864,7 +864,7 @@ Proof.
       destruct (srv_info_spec s b ds dd ds' lo hi Hc ltac:(lia) Hb Hlo Hhi Hds Hwf' H1 H65 Hne) as (k & Hk & Hsrv).
       fold st in Hsrv.
       unfold xfer. cbn [encodable]. rewrite !fits16_N by (subst st; lia). cbn [andb]. rewrite Hsrv.
-      cbn [deliver]. unfold wait, set_q, mkc. cbn [c_q c_mtu c_cmtu c_locked app wait_in acc_info is_err].
+      cbn [deliver]. unfold wait, set_q, mkc. cbn [c_q c_mtu c_cmtu c_locked app wait_in is_cmd_err acc_info is_err].
       change {| c_mtu := mtu; c_cmtu := cm; c_q := []; c_locked := false |} with (mkc mtu cm [] false).
       assert (Hsplit : shape_descs b ds = shape_descs b dd ++ shape_descs st (firstn k ds')
                                           ++ shape_descs (st + N.of_nat (length (firstn k ds'))) (skipn k ds')).
@@ -1168,7 +1168,7 @@ Lemma disc_primary_invalid_start s mtu cm f acc :
 Proof.
   intros Hc. cbn [disc_primary]. unfold xfer. cbn [encodable fits16 N.ltb N.compare andb].
   unfold server_step. unfold srv_group. cbn [range_invalid N.eqb orb].
-  cbn [deliver]. unfold wait, set_q, mkc. cbn [c_q c_mtu c_cmtu c_locked app wait_in acc_group is_err].
+  cbn [deliver]. unfold wait, set_q, mkc. cbn [c_q c_mtu c_cmtu c_locked app wait_in is_cmd_err acc_group is_err].
   reflexivity.
 Qed.
 
